@@ -131,12 +131,32 @@ func (fx *fnExec) execInstr(in ssa.Instruction) {
 	case *ssa.Go:
 		fx.execGo(x, where)
 	case *ssa.Defer:
-		fx.st.defers = append(fx.st.defers, x)
+		fx.st.defers = append(fx.st.defers, deferRec{x, tTrue})
 	case *ssa.RunDefers:
 		ds := fx.st.defers
 		fx.st.defers = nil
 		for i := len(ds) - 1; i >= 0 && fx.live; i-- {
-			fx.execCall(nil, &ds[i].Call, fx.pos(ds[i].Pos()))
+			dr := ds[i]
+			if dr.guard.S == "true" {
+				fx.execCall(nil, &dr.d.Call, fx.pos(dr.d.Pos()))
+				continue
+			}
+			if fx.v.isNoEffect(calleeName(&dr.d.Call)) {
+				continue
+			}
+			before := fx.st.clone()
+			saveR := fx.curR
+			fx.curR = tAnd(saveR, dr.guard)
+			fx.execCall(nil, &dr.d.Call, fx.pos(dr.d.Pos()))
+			if !fx.live {
+				fx.live = true
+				fx.curR = tAnd(saveR, tNot(dr.guard))
+				fx.st = before
+				continue
+			}
+			after := fx.st
+			fx.curR = saveR
+			fx.st = fx.mergeStates([]edge{{cond: tAnd(saveR, dr.guard), st: after}, {cond: tAnd(saveR, tNot(dr.guard)), st: before}})
 		}
 	case *ssa.Range:
 		fx.execRange(x, where)
@@ -260,6 +280,10 @@ func (fx *fnExec) execUnOp(x *ssa.UnOp, where string) {
 		v := fx.load(ad)
 		if ad.Cell == nil {
 			fx.assumeAlive(v)
+		} else if tb := fx.sliceTables[ad.Cell]; tb != nil && len(ad.Path) == 0 {
+			// immutable table: its content is the initialiser, whatever happened to the rest of the heap
+			h := fx.heap(fx.st, tb.heap, tb.sort)
+			fx.assume(tEq(tSel(h, tb.ref), tb.content))
 		}
 		fx.vals[x] = v
 	case token.NOT:
